@@ -8,6 +8,7 @@ Line-protocol driver for the C08 model (model file only).  One output line per i
   X object=<id> tuple=<id> function=<id> type=<id>                               special classes → `ok`
   Q hok                                   → `1`/`0`: the hierarchy hypotheses of the theorems (`Hier.ok`)
   Q wf <t>                                → `1`/`0`: `Ty.wf`
+  Q hyp <t>                               → three digits: `Ty.wf`, `Ty.noFunc`, `Ty.latOk` (the theorems' hypotheses)
   Q sub <l> | <r>   Q psub <l> | <r>      → `1`/`0`
   Q join <s> | <t>  Q meet <s> | <t>      → term
   Q simp <t> | <t> | …                    → term
@@ -145,6 +146,7 @@ def answer (H : Hier) (op : String) (rest : String) : String :=
   | some ts =>
     match op, ts with
     | "wf", [t] => b2s (t.wf H)
+    | "hyp", [t] => b2s (t.wf H) ++ b2s (t.noFunc H) ++ b2s (t.latOk H)
     | "sub", [l, r] => b2s (isSubtype H l r)
     | "psub", [l, r] => b2s (isProperSubtype H l r)
     | "join", [s, t] => showTy (join H s t)
